@@ -1,20 +1,24 @@
 #!/usr/bin/env python3
 """Prints the markdown tables of DESIGN.md §6 from mutants/catalogue.json and seeded/*/meta.json."""
-import json, glob, os
-print("| mutant | property | change | suite | quick check | first signature |")
-print("|---|---|---|---|---|---|")
+import json, glob, re
+def short(s, n):
+    s = (s or '').replace('|', '/').replace('\n', ' ')
+    return s if len(s) <= n else s[:n-1] + '…'
+print("| mutant | change | suite (pass/fail) | quick check | first signature |")
+print("|---|---|---|---|---|")
 for m in json.load(open('/verif/mutants/catalogue.json')):
     r = m.get('result') or {}
-    print(f"| {m['id']} | {m['property']} | {m['description']} | {r.get('suite', ['?','?'])[0]} passed / {r.get('suite', ['?','?'])[1]} failed | {r.get('verdict')} in {r.get('wall')} s | `{(r.get('first_signature') or '')[:80]}` |")
+    su = r.get('suite', ['?', '?'])
+    print(f"| {m['id']} | {short(m['description'], 150)} | {su[0]}/{su[1]} | {m['property']}: {r.get('verdict')} ({r.get('wall')} s) | `{short(r.get('first_signature'), 70)}` |")
 print()
-print("| seed | property | change (sub-agent's summary) | needs to manifest | demo without / with change | suite with change | quick check | first signature |")
-print("|---|---|---|---|---|---|---|---|")
+print("| seed | change (sub-agent's summary, shortened) | needs to manifest | demo w/o → with | suite with | quick check | first signature |")
+print("|---|---|---|---|---|---|---|")
+n = miss = 0
 for d in sorted(glob.glob('/verif/seeded/*/meta.json')):
-    m = json.load(open(d))
-    v = m['verified_here']
-    ck = m['checks']
+    m = json.load(open(d)); v = m['verified_here']; ck = m['checks']; n += 1
     res = '; '.join(f"{p}: {c['verdict']}" for p, c in ck.items())
     sig = next((c['signatures'][0] for c in ck.values() if c['signatures']), '')
-    dem = ('pass' if 'ok.' in v['demo_without_change'] else '?') + ' / ' + ('FAIL' if 'FAILED' in v['demo_with_change'] else '?')
-    hist = ' (' + m['history'].split(':')[0] + ': see meta.json)' if 'history' in m else ''
-    print(f"| {m['id']} | {m['property']} | {(m.get('summary') or '').replace('|','/')[:160]} | {(m.get('needs_to_manifest') or '').replace('|','/')[:140]} | {dem} | {v['suite_with_change']['passed']}/{v['suite_with_change']['failed']} | {res}{hist} | `{sig[:70]}` |")
+    dem = ('pass' if 'ok.' in v['demo_without_change'] else '?') + ' → ' + ('FAIL' if 'FAILED' in v['demo_with_change'] else '?')
+    star = ' ★' if 'history' in m else ''
+    print(f"| {m['id']}{star} | {short(m.get('summary'), 170)} | {short(m.get('needs_to_manifest'), 120)} | {dem} | {v['suite_with_change']['passed']}/{v['suite_with_change']['failed']} | {res} | `{short(sig, 60)}` |")
+print(f"\n{n} seeded changes; ★ = missed by the property's own check at first evaluation and caught after the check was strengthened (details in the seed's meta.json).")
